@@ -43,6 +43,13 @@ type Task struct {
 	Data     interface{}    // harness data (per-task call context etc.)
 	gid      int64
 	detached bool // forced past a false predicate and blocked inside the code under test
+	// blockedAt: the label the task was resumed from when it was found blocked inside the code under test (a wait on a
+	// channel, a lock or a condition without a yield point) and detached by the scheduler itself. Until it parks again it
+	// is reported as parked there, disabled: logically it has not moved.
+	blockedAt string
+	// RunWall is the real time the task has spent running (between being resumed and parking again): time it slept or
+	// was blocked inside the code under test, apart from computing
+	RunWall time.Duration
 }
 
 // Gate sets the enabledness predicate of a task that is parked (typically at
@@ -53,8 +60,17 @@ func (t *Task) Gate(pred func() bool) {
 	t.s.mu.Unlock()
 }
 
-// Label is where the task is parked ("" when running or done).
-func (t *Task) Label() string { return t.label }
+// Label is where the task is parked ("" when running or done). A task that the scheduler found blocked inside the code
+// under test right after resuming it counts as still parked where it was.
+func (t *Task) Label() string {
+	if t.label == "" && t.detached && t.blockedAt != "" {
+		return t.blockedAt
+	}
+	return t.label
+}
+
+// Blocked reports whether the task was detached by the scheduler because it blocks inside the code under test.
+func (t *Task) Blocked() bool { return t.detached && t.blockedAt != "" }
 
 // Done reports whether the task function returned.
 func (t *Task) Done() bool { return t.st == stDone }
@@ -65,6 +81,7 @@ type Sched struct {
 	tasks     []*Task
 	cur       *Task
 	timer     *time.Timer
+	softTimer *time.Timer
 	streak    int
 	nDetached int
 	Fair      int // maximum consecutive decisions for one task while others are enabled
@@ -78,7 +95,12 @@ type Sched struct {
 	Preempts  int // decisions that switched away from an enabled running task
 	MaxSteps  int
 	Watchdog  time.Duration
-	seq       int
+	// SoftDetach: a resumed task that has neither parked nor ended after this long is looked at; if its goroutine waits
+	// on a channel, a lock or a condition inside the code under test (not asleep, not runnable), the wait has no yield
+	// point: the task is detached (it continues on its own once somebody wakes it) and the others go on. 0 = never.
+	SoftDetach  time.Duration
+	AutoBlocked int // tasks detached that way
+	seq         int
 	// Trace, when non-nil, receives one line per decision.
 	Trace func(step int, t *Task, label string)
 	// OnStep is called (scheduler goroutine, no task running) before every decision.
@@ -88,7 +110,7 @@ type Sched struct {
 // New returns a scheduler for one case.
 func New(schedule []uint8) *Sched {
 	return &Sched{notify: make(chan struct{}, 1), Schedule: schedule,
-		MaxSteps: 20000, Watchdog: watchdogDefault(), Fair: 300}
+		MaxSteps: 20000, Watchdog: watchdogDefault(), Fair: 300, SoftDetach: 400 * time.Millisecond}
 }
 
 // watchdogDefault is 20 s; VERIF_TEST_WATCHDOG_MS shortens it in the generated search only (not in replays), which is
@@ -180,6 +202,7 @@ func (s *Sched) Go(name string, free bool, fn func()) *Task {
 			}
 			if t.detached {
 				t.detached = false
+				t.blockedAt = ""
 				s.nDetached--
 			}
 			s.mu.Unlock()
@@ -218,6 +241,7 @@ func (s *Sched) Yield(label string, enabled func() bool) {
 	}
 	if t.detached {
 		t.detached = false
+		t.blockedAt = ""
 		s.nDetached--
 	}
 	s.mu.Unlock()
@@ -249,7 +273,14 @@ func (e *ErrSteps) Error() string { return fmt.Sprintf("step bound %d exhausted"
 
 // settle waits until no task is running.
 func (s *Sched) settle(who *Task, from string) error {
-	armed := false
+	armed, softArmed := false, false
+	var begin time.Time
+	looked := 0
+	defer func() {
+		if softArmed {
+			s.softTimer.Stop()
+		}
+	}()
 	for {
 		s.mu.Lock()
 		busy := false
@@ -273,19 +304,90 @@ func (s *Sched) settle(who *Task, from string) error {
 				s.timer.Reset(s.Watchdog)
 			}
 			armed = true
+			begin = time.Now()
+		}
+		var soft <-chan time.Time
+		if s.SoftDetach > 0 && who != nil && looked < 20 {
+			if !softArmed {
+				d := s.SoftDetach*time.Duration(looked+1) - time.Since(begin)
+				if d < time.Millisecond {
+					d = time.Millisecond
+				}
+				if s.softTimer == nil {
+					s.softTimer = time.NewTimer(d)
+				} else {
+					s.softTimer.Reset(d)
+				}
+				softArmed = true
+			}
+			soft = s.softTimer.C
 		}
 		select {
 		case <-s.notify:
+		case <-soft:
+			softArmed = false
+			looked++
+			if blockedInCodeUnderTest(goroutineState(who.gid)) {
+				s.mu.Lock()
+				if who.st == stRunning && !who.detached {
+					who.detached = true
+					who.blockedAt = from
+					s.nDetached++
+					s.AutoBlocked++
+					if s.cur == who {
+						s.cur = nil
+					}
+				}
+				s.mu.Unlock()
+			}
 		case <-s.timer.C:
 			return &ErrWatchdog{Task: who, Label: from}
 		}
 	}
 }
 
+// blockedInCodeUnderTest: the goroutine waits (channel, select, lock, condition, wait group) and the innermost frame
+// outside the runtime and the sync packages belongs to the library under test.
+func blockedInCodeUnderTest(state string) bool {
+	if state == "" {
+		return false
+	}
+	head := state
+	if i := strings.Index(head, "\n"); i >= 0 {
+		head = head[:i]
+	}
+	waiting := false
+	for _, w := range []string{"[chan receive", "[chan send", "[select", "[sync.Cond.Wait", "[semacquire", "[sync.Mutex.Lock", "[sync.RWMutex", "[sync.WaitGroup.Wait"} {
+		if strings.Contains(head, w) {
+			waiting = true
+		}
+	}
+	if !waiting {
+		return false
+	}
+	for _, line := range strings.Split(state, "\n")[1:] {
+		if strings.HasPrefix(line, "\t") || line == "" {
+			continue
+		}
+		if strings.HasPrefix(line, "runtime.") || strings.HasPrefix(line, "sync.") || strings.HasPrefix(line, "internal/") || strings.HasPrefix(line, "sync/atomic.") || strings.HasPrefix(line, "context.") || strings.HasPrefix(line, "time.") {
+			continue
+		}
+		return strings.HasPrefix(line, "github.com/go-netty/go-netty")
+	}
+	return false
+}
+
 // Settle waits for free-running set-up tasks to park.
 func (s *Sched) Settle() error {
 	var who *Task
 	s.mu.Lock()
+	if s.AutoBlocked > 0 && s.nDetached > 0 {
+		// a task that was blocked inside the code under test may just have been woken by the last slice: give it a moment
+		// to reach its next yield point, so that the decision that follows sees it
+		s.mu.Unlock()
+		s.WaitDetached(2 * time.Millisecond)
+		s.mu.Lock()
+	}
 	for _, t := range s.tasks {
 		if t.st == stRunning {
 			who = t
@@ -323,7 +425,7 @@ func (s *Sched) Parked() []*Task {
 	defer s.mu.Unlock()
 	var out []*Task
 	for _, t := range s.tasks {
-		if t.st == stParked {
+		if t.st == stParked || (t.st == stRunning && t.detached && t.blockedAt != "") {
 			out = append(out, t)
 		}
 	}
@@ -408,8 +510,11 @@ func (s *Sched) resumeTask(t *Task) error {
 		s.streak = 0
 	}
 	s.last = t
+	begin := time.Now()
 	t.resume <- struct{}{}
-	return s.settle(t, from)
+	err := s.settle(t, from)
+	t.RunWall += time.Since(begin)
+	return err
 }
 
 // RunTo resumes task t (which must be enabled) repeatedly until it is parked at
